@@ -578,6 +578,8 @@ def urlencQueryCallback (cfg : Cfg) (uid : Nat) (c : Conn) : Conn :=
 /-- htp_tx_state_request_line -/
 def txStateRequestLine (cfg : Cfg) (uid : Nat) (c : Conn) : R :=
   let t := (c.findTx uid).getD { uid := uid }
+  -- a CONNECT line without a target: htp_parse_hostport(NULL, ..) fails before anything else happens
+  if t.methodNumber == M_CONNECT && t.uri.isNone then (c, .error) else
   -- URI parsing: CONNECT uses the authority parser
   let t : Tx :=
     if t.methodNumber == M_CONNECT then
